@@ -11,7 +11,7 @@ import (
 var zzC04Alpha = [][]zzOp{
 	{ // 0: methods added after other registrations split the node
 		zzH("/p/au", "GET"), zzH("/p/ab", "GET"), zzH("/p/au", "POST"), zzH("/p/a{x}", "DELETE"), zzH("/p", "PUT", "PATCH"),
-		zzRm("/p/au"), zzRm("/p/au", "POST"), zzRm("/p/ab", "PUT"), zzRm("/p/au", "GET"), zzCl(),
+		zzRm("/p/au"), zzRm("/p/au", "POST"), zzRm("/p/ab", "PUT", "TRACE"), zzRm("/p/au", "GET"), zzCl(),
 	},
 	{ // 1: parameters that split, removal of everything, prefix clean, Any
 		zzH("/{a}/x", "GET"), zzH("/{a}/y", "POST"), zzH("/{a}/x", "DELETE"), zzH("/k", "GET", "POST", "DELETE", "PUT", "PATCH", "CONNECT"),
@@ -146,6 +146,9 @@ func ZZC04(n int) {
 	}
 	for i := 0; i < depth; i++ {
 		op := alpha[zzv.Choice("op", len(alpha))]
+		// observers run before every step too: whatever they cache must not outlive it
+		zzCheckRoutes("routes-mid", r, m, trace)
+		zzServe(r, zzReq("OPTIONS", "*"))
 		if !zzApply(r, m, op, i+1) {
 			zzv.Assume(false)
 		}
